@@ -244,8 +244,9 @@ def run(pid, tier):
         flush()
     flush(True)
     # ---- V
-    walks = [(16, 2, 20000), (33, 4, 20000), (64, 3, 20000)] if quick else \
-            [(16, 2, 150000), (24, 1, 100000), (33, 4, 150000), (48, 8, 100000), (64, 3, 150000), (64, 6, 150000), (7, 2, 100000), (13, 3, 100000)]
+    walks = [(16, 2, 20000), (33, 4, 20000), (64, 3, 20000), (300, 3, 2500)] if quick else \
+            [(16, 2, 150000), (24, 1, 100000), (33, 4, 150000), (48, 8, 100000), (64, 3, 150000), (64, 6, 150000), (7, 2, 100000), (13, 3, 100000),
+             (300, 3, 8000), (520, 2, 5000)]      # heaps that hold texts of more than 255 characters (explicit lengths)
     for k, (size, cap, steps) in enumerate(walks):
         raw = '%s/walk%d.raw' % (w, k)
         sd = lib.seed() * 131 + k
